@@ -11,14 +11,17 @@ model evaluator over abstract states, nothing of the repository is executed):
                  from the specification is the reported construct (semantic signature).
  first-match     with two table entries the first entry (in table order) accepted by the
                  guard is returned and a rejected first entry does not end the search.
- call-site       the loop of MethodAnalysis._create_basic_block that attaches exception
-                 information is evaluated on a block built with the real
-                 DEXBasicBlock.__init__/push over symbolic start S and length L: the
-                 query must be (S, S+L-1) (inclusive byte range) and the answer must be
-                 stored on that same block.
- end-convention  dex.determineException is evaluated on one symbolic try item: the range it
-                 emits must be [2*start_addr, 2*start_addr + 2*insn_count - 1], i.e. the same
-                 inclusive-byte convention the call site uses.
+ call-site       MethodAnalysis(vm, method) is built on a model method (four instructions of symbolic lengths, one try
+                 range over the second instruction, handler at the third, return-void last; BasicOPCODES,
+                 determineNext, determineException, DEXBasicBlock, BasicBlocks are the real code), its Exceptions
+                 object is replaced by a recorder and _create_basic_block() is evaluated AS A WHOLE: every block must
+                 store the answer of the query (start, end-1) -- its inclusive byte range -- and the try table must
+                 reach Exceptions.add.
+ block-exceptions the same construction end to end with the real Exceptions/ExceptionAnalysis: the block inside the
+                 try range reports exactly that range and its handler block, the other blocks report nothing.
+ end-convention  dex.determineException on one symbolic try item emits [2*start_addr, 2*start_addr+2*insn_count-1].
+ handler-list    for encoded_catch_handler sizes 2, 0 and -2 the reported handlers are the typed pairs in order,
+                 followed by (Ljava/lang/Throwable;, 2*catch_all_addr) exactly when size <= 0.
 """
 from __future__ import annotations
 
@@ -167,32 +170,161 @@ def check_guard(sink, repo, m):
     return n
 
 
-# --------------------------------------------------------------------------- call site
+# --------------------------------------------------------------------------- model of one encoded method
 class InsModel(PyModel):
-    def __init__(self, length):
-        self._l = length
+    def __init__(self, length, op=0, name="nop"):
+        self._l, self._op, self._n = length, op, name
 
     def get_length(self):
         return self._l
 
     def get_op_value(self):
-        return 0
+        return self._op
 
     def get_name(self):
-        return "nop"
+        return self._n
+
+    def get_ref_off(self):
+        return 0
 
 
-class MethodModel(PyModel):
+class TryItem(PyModel):
+    def __init__(self, start_addr, insn_count, handler_off=4):
+        self.start_addr, self.insn_count, self.handler_off = start_addr, insn_count, handler_off
+
+    def get_handler_off(self):
+        return self.handler_off
+
+    def get_start_addr(self):
+        return self.start_addr
+
+    def get_insn_count(self):
+        return self.insn_count
+
+    def get_off(self):
+        return 60
+
+    get_offset = get_off
+
+
+class Handler(PyModel):
+    def __init__(self, type_idx, addr):
+        self.type_idx, self.addr = type_idx, addr
+
+    def get_type_idx(self):
+        return self.type_idx
+
+    def get_addr(self):
+        return self.addr
+
+
+class CatchHandler(PyModel):
+    """encoded_catch_handler: size > 0: `size` typed handlers; size <= 0: |size| typed handlers followed by a catch-all"""
+
+    def __init__(self, off, size, handlers, catch_all_addr):
+        self.off, self.size, self.handlers, self.catch_all_addr = off, size, list(handlers), catch_all_addr
+
+    def get_off(self):
+        return self.off
+
+    get_offset = get_off
+
+    def get_handlers(self):
+        return list(self.handlers)
+
+    def get_size(self):
+        return self.size
+
+    def get_catch_all_addr(self):
+        return self.catch_all_addr
+
+
+class HandlerList(PyModel):
+    def __init__(self, items):
+        self.list = list(items)
+        self.size = len(self.list)
+
+    def get_off(self):
+        return 100
+
+    get_offset = get_off
+
+    def get_list(self):
+        return list(self.list)
+
+    def get_size(self):
+        return self.size
+
+    def get_obj(self):
+        return list(self.list)
+
+
+class CodeModel(PyModel):
+    def __init__(self, tries, handlers):
+        self._tries, self._handlers = tries, handlers
+
+    def get_tries_size(self):
+        return len(self._tries)
+
+    def get_handlers(self):
+        return self._handlers
+
+    def get_tries(self):
+        return list(self._tries)
+
+    def get_bc(self):
+        raise NotModelled("bytecode object of the model method")
+
+
+class EncMethod(PyModel):
+    def __init__(self, code, instructions=()):
+        self._code = code
+        self._ins = list(instructions)  # (byte offset, InsModel)
+        self.code_on = True
+
+    def get_code(self):
+        return self._code if self.code_on else None
+
     def get_name(self):
         return "m"
 
+    def get_class_name(self):
+        return "LModel;"
+
+    def get_descriptor(self):
+        return "()V"
+
     def get_code_off(self):
         return 0
+
+    def get_access_flags_string(self):
+        return "public"
+
+    def get_instructions_idx(self):
+        return list(self._ins)
+
+    def get_instructions(self):
+        return [i for _, i in self._ins]
+
+    def get_instruction(self, idx, off=None):
+        return self._ins[idx][1]
+
+
+class VmModel(PyModel):
+    def get_cm_type(self, idx):
+        return "Ltype%d;" % idx
+
+    def get_format_type(self):
+        return "DEX"
 
 
 class ExcRecorder(PyModel):
     def __init__(self):
         self.calls = []
+        self.added = []
+
+    def add(self, table, bbs):
+        self.added.append(table)
 
     def get_exception(self, *a):
         t = Token("answer%d" % len(self.calls))
@@ -200,180 +332,167 @@ class ExcRecorder(PyModel):
         return t
 
 
-def _attr_assigned_from(init, clsname):
-    """self.<attr> = <clsname>(...) in a constructor -> attr"""
-    out = []
-    for n in walk_no_nested(init.node):
-        if isinstance(n, ast.Assign) and isinstance(n.value, ast.Call) and isinstance(n.value.func, ast.Name) \
-                and n.value.func.id == clsname:
-            for t in n.targets:
-                if isinstance(t, ast.Attribute) and isinstance(t.value, ast.Name) and t.value.id == "self":
-                    out.append(t.attr)
-    return out
+def _one_try_method():
+    """four instructions of symbolic lengths 2*u1..2*u4 code units; a try range covering exactly the second
+    instruction whose single typed handler begins at the third; the fourth is return-void"""
+    u = [Lin.atom("u%d" % k, low=1) for k in (1, 2, 3, 4)]
+    offs = [Lin.of(0), u[0] * 2, (u[0] + u[1]) * 2, (u[0] + u[1] + u[2]) * 2]
+    ins = [InsModel(u[0] * 2), InsModel(u[1] * 2), InsModel(u[2] * 2), InsModel(u[3] * 2, 0x0E, "return-void")]
+    ch = CatchHandler(104, 1, [Handler(7, u[0] + u[1])], Lin.atom("unused_catch_all"))
+    code = CodeModel([TryItem(u[0], u[1], 4)], HandlerList([ch]))
+    return EncMethod(code, list(zip([0] + offs[1:], ins))), u, offs
+
+
+# --------------------------------------------------------------------------- call site / per-block exception information
+def _new_method_analysis(it, m, method):
+    try:
+        return it.instantiate(m.cls("MethodAnalysis"), [VmModel(), method], {})
+    except PyRaise as e:
+        raise AnalysisError("MethodAnalysis(vm, method) raised %s on the model method" % e)
+
+
+def _blocks_of(it, me, m):
+    bbs = [v for v in me.attrs.values() if isinstance(v, Obj) and v.cls is m.cls("BasicBlocks")]
+    if len(bbs) != 1:
+        raise AnalysisError("MethodAnalysis no longer owns exactly one BasicBlocks object")
+    out = list(it.iterate(it.call(it.getattr(bbs[0], "gets"), [])))
+    return bbs[0], out
 
 
 def check_call_site(sink, repo, m):
     cb = m.func("MethodAnalysis._create_basic_block")
     sink.analysed(cb)
-    init = m.func("MethodAnalysis.__init__")
-    bb_attr = _attr_assigned_from(init, "BasicBlocks")
-    ex_attr = _attr_assigned_from(init, "Exceptions")
-    sink.require(len(bb_attr) == 1 and len(ex_attr) == 1,
-                 "MethodAnalysis.__init__ no longer creates exactly one BasicBlocks() and one Exceptions() attribute")
-    sites = [c for c in calls_in(cb.node) if isinstance(c.func, ast.Attribute) and c.func.attr == "get_exception"]
-    sink.require(sites, "anchor vanished: no get_exception(...) call in MethodAnalysis._create_basic_block")
-    loops = []
-    for c in sites:
-        sink.count("call_sites")
-        n = c
-        top = None
-        while n is not None and n is not cb.node:
-            if isinstance(n, ast.stmt):
-                top = n
-            n = getattr(n, "_parent", None)
-            if n is cb.node:
-                break
-        if n is None:
-            # mutated (deep-copied) trees carry no parent links: find the top-level statement by containment
-            top = next(s for s in cb.node.body if any(x is c for x in ast.walk(s)))
-        if top not in loops:
-            loops.append(top)
-    bcls = m.cls("DEXBasicBlock")
+    sink.analysed(m.func("MethodAnalysis.__init__"))
     sink.analysed(m.func("DEXBasicBlock.__init__"))
     sink.analysed(m.func("DEXBasicBlock.push"))
-    for top in loops:
-        it = Interp(repo, lenient=LENIENT)
-        S, L = Lin.atom("S"), Lin.atom("L")
-        blocks = []
-        for k, (s, l) in enumerate(((S, L), (S + L, Lin.atom("L2")))):
-            b = it.instantiate(bcls, [s, Token("vm"), MethodModel(), BBTable()], {})
-            it.call(it.getattr(b, "push"), [InsModel(l)])
-            blocks.append((b, s, l))
-        bbs = it.instantiate(m.cls("BasicBlocks"), [], {})
-        for b, _, _ in blocks:
-            it.call(it.getattr(bbs, "push"), [b])
-        rec = ExcRecorder()
-        me = Obj(m.cls("MethodAnalysis"))
-        me.attrs[bb_attr[0]] = bbs
-        me.attrs[ex_attr[0]] = rec
-        env = Env(m, it.module_env(m), frame=(me, m.cls("MethodAnalysis")))
-        env.vars["self"] = me
-        try:
-            it.exec_stmt(top, env)
-        except PyRaise as e:
-            raise AnalysisError("the statement attaching exception information left the modelled fragment: %s" % e)
-        sink.require(len(rec.calls) == len(blocks),
-                     "get_exception is not called once per basic block in the modelled loop (%d calls for %d blocks)" % (len(rec.calls), len(blocks)))
-        for (b, s, l), (args, tok) in zip(blocks, rec.calls):
-            want = (s, s + l - 1)
-            ok = len(args) == 2 and Lin.of(args[0]) == want[0] and Lin.of(args[1]) == want[1]
-            sink.check("call-site", "block [%s, %s)" % (s, s + l), ok, cb,
-                       "get_exception(%s) for block [%s, %s)" % (", ".join(str(a) for a in args), s, s + l),
-                       "the block covering bytes [%s, %s] (start %s, exclusive end %s) queries get_exception(%s); "
-                       "the inclusive byte range is (%s, %s)" % (s, s + l - 1, s, s + l, ", ".join(str(a) for a in args), want[0], want[1]),
-                       node=top, detail="query == (start, end-1) == (%s, %s)" % want)
-            stored = it.call(it.getattr(b, "get_exception_analysis"), [])
-            sink.check("call-site", "answer stored on block %s" % s, stored is tok, cb,
-                       "answer for block %s stored: %r" % (s, stored),
-                       "the answer of get_exception for block %s is not stored on that block (found %r)" % (s, stored), node=top,
-                       detail="set_exception_analysis receives the answer for the same block")
+    # ---- (1) the queries: the constructor is run without code, the Exceptions object is replaced by a recorder,
+    #          then _create_basic_block() is evaluated as a whole
+    it = Interp(repo, lenient=LENIENT)
+    method, u, offs = _one_try_method()
+    method.code_on = False
+    me = _new_method_analysis(it, m, method)
+    exc_attrs = [k for k, v in me.attrs.items() if isinstance(v, Obj) and v.cls is m.cls("Exceptions")]
+    sink.require(len(exc_attrs) == 1, "MethodAnalysis.__init__ no longer creates exactly one Exceptions() attribute")
+    rec = ExcRecorder()
+    me.attrs[exc_attrs[0]] = rec
+    method.code_on = True
+    for k, v in list(me.attrs.items()):
+        if v is None and k == "code":
+            me.attrs[k] = method.get_code()
+    try:
+        it.call(it.getattr(me, "_create_basic_block"), [])
+    except PyRaise as e:
+        raise AnalysisError("_create_basic_block raised %s on the model method" % e)
+    _, blocks = _blocks_of(it, me, m)
+    sink.count("call_sites", 1 if rec.calls else 0)
+    sink.require(rec.calls, "anchor vanished: _create_basic_block never queries Exceptions.get_exception on the model method")
+    sink.check("call-site", "try table handed to Exceptions.add", len(rec.added) == 1 and isinstance(rec.added[0], list) and len(rec.added[0]) == 1,
+               cb, "Exceptions.add called %d time(s)" % len(rec.added),
+               "the try table of determineException is not handed to Exceptions.add exactly once before the blocks are queried", node=cb.node,
+               detail="Exceptions.add receives the one-entry try table")
+    sink.check("call-site", "one query per block", len(rec.calls) == len(blocks), cb,
+               "%d get_exception queries for %d blocks" % (len(rec.calls), len(blocks)),
+               "get_exception is queried %d times for %d basic blocks" % (len(rec.calls), len(blocks)), node=cb.node)
+    answers = {id(t): a for a, t in rec.calls}
+    for b in blocks:
+        s_ = it.call(it.getattr(b, "get_start"), [])
+        e_ = it.call(it.getattr(b, "get_end"), [])
+        stored = it.call(it.getattr(b, "get_exception_analysis"), [])
+        args = answers.get(id(stored))
+        want = (Lin.of(s_), Lin.of(e_) - 1)
+        ok = args is not None and len(args) == 2 and Lin.of(args[0]) == want[0] and Lin.of(args[1]) == want[1]
+        sink.count("blocks_queried")
+        sink.check("call-site", "block [%s, %s)" % (s_, e_), ok, cb,
+                   "block [%s, %s) stores the answer of get_exception(%s)" % (s_, e_, ", ".join(str(x) for x in args) if args else "no query"),
+                   "the block covering bytes [%s, %s] (exclusive end %s) stores the answer of get_exception(%s); the inclusive byte range "
+                   "of the block is (%s, %s)" % (s_, want[1], e_, ", ".join(str(x) for x in args) if args else "<no query of this run>", want[0], want[1]),
+                   node=cb.node, detail="query == (start, end-1) == (%s, %s), answer stored on the same block" % want)
+    # ---- (2) end to end with the real Exceptions / ExceptionAnalysis / determineException
+    it = Interp(repo, lenient=LENIENT)
+    method, u, offs = _one_try_method()
+    me = _new_method_analysis(it, m, method)
+    bbs, blocks = _blocks_of(it, me, m)
+    try_lo, try_hi = offs[1], offs[2] - 1
+    handler_at = offs[2]
+    seen_try = 0
+    for b in blocks:
+        s_ = Lin.of(it.call(it.getattr(b, "get_start"), []))
+        e_ = Lin.of(it.call(it.getattr(b, "get_end"), []))
+        ea = it.call(it.getattr(b, "get_exception_analysis"), [])
+        covered = (s_ <= try_hi) and (try_lo <= e_ - 1)
+        inst = "block [%s, %s)" % (s_, e_)
+        sink.count("blocks_end_to_end")
+        if not covered:
+            sink.check("block-exceptions", inst, ea is None, cb, "%s outside the try range reports %s" % (inst, "an entry" if ea is not None else None),
+                       "%s contains no instruction of the try range [%s, %s] but reports exception information" % (inst, try_lo, try_hi), node=cb.node,
+                       detail="no try range reported")
+            continue
+        seen_try += 1
+        d = None
+        if isinstance(ea, Obj):
+            try:
+                d = it.call(it.getattr(ea, "get"), [])
+            except PyRaise as e:
+                d = "raises %s" % e
+        hb = None
+        if isinstance(d, dict) and isinstance(d.get("list"), list) and len(d["list"]) == 1:
+            hb = d["list"][0]
+        hblock = next((x for x in blocks if Lin.of(it.call(it.getattr(x, "get_start"), [])) == handler_at), None)
+        ok = (isinstance(d, dict) and Lin.of(d.get("start")) == try_lo and Lin.of(d.get("end")) == try_hi and isinstance(hb, dict)
+              and hb.get("name") == "Ltype7;" and Lin.of(hb.get("idx")) == handler_at and hblock is not None
+              and hb.get("basic_block") == it.call(it.getattr(hblock, "get_name"), []))
+        sink.check("block-exceptions", inst, ok, cb, "%s inside the try range reports %s" % (inst, _short(d)),
+                   "%s lies in the try range [%s, %s] (handler Ltype7; at %s) but reports %s" % (inst, try_lo, try_hi, handler_at, _short(d)),
+                   node=cb.node, detail="reports range [%s, %s] and the handler block at %s" % (try_lo, try_hi, handler_at))
+    sink.require(seen_try >= 1, "no basic block of the model method covers the try range (block construction left the model)")
+
+
+def _short(d):
+    if isinstance(d, dict):
+        return "{start=%s, end=%s, handlers=%s}" % (d.get("start"), d.get("end"), [(h.get("name"), str(h.get("idx")), h.get("basic_block")) for h in d.get("list", []) if isinstance(h, dict)])
+    return repr(d)
 
 
 # --------------------------------------------------------------------------- determineException
-class TryItem(PyModel):
-    def get_handler_off(self):
-        return 4
-
-    def get_start_addr(self):
-        return Lin.atom("start_addr")
-
-    def get_insn_count(self):
-        return Lin.atom("insn_count")
-
-
-class Handler(PyModel):
-    def get_type_idx(self):
-        return 7
-
-    def get_addr(self):
-        return Lin.atom("handler_addr")
-
-
-class CatchHandler(PyModel):
-    def __init__(self, off):
-        self._off = off
-
-    def get_off(self):
-        return self._off
-
-    def get_offset(self):
-        return self._off
-
-    def get_handlers(self):
-        return [Handler()]
-
-    def get_size(self):
-        return 1
-
-    def get_catch_all_addr(self):
-        return Lin.atom("catch_all_addr")
-
-
-class HandlerList(PyModel):
-    def get_off(self):
-        return 100
-
-    def get_offset(self):
-        return 100
-
-    def get_list(self):
-        return [CatchHandler(104)]
-
-
-class CodeModel(PyModel):
-    def get_tries_size(self):
-        return 1
-
-    def get_handlers(self):
-        return HandlerList()
-
-    def get_tries(self):
-        return [TryItem()]
-
-
-class EncMethod(PyModel):
-    def get_code(self):
-        return CodeModel()
-
-    def get_name(self):
-        return "m"
-
-
-class VmModel(PyModel):
-    def get_cm_type(self, idx):
-        return "Ljava/lang/Exception;"
-
-
 def check_end_convention(sink, repo):
     d = sink.mod(DEX)
     f = d.func("determineException")
     sink.analysed(f)
-    it = Interp(repo, lenient=LENIENT)
-    try:
-        r = it.call(it.closure_of(f), [VmModel(), EncMethod()])
-    except PyRaise as e:
-        raise AnalysisError("determineException raised %s on the one-try model" % e)
-    sink.require(isinstance(r, list) and len(r) == 1 and isinstance(r[0], list) and len(r[0]) >= 3,
-                 "determineException no longer returns [[start, end, handlers...]] for one try item (got %r)" % (r,))
-    z = r[0]
     sa, ic = Lin.atom("start_addr"), Lin.atom("insn_count")
-    sink.count("try_items")
-    sink.check("end-convention", "try start", Lin.of(z[0]) == sa * 2, f, "try start = %s" % (z[0],),
-               "determineException emits start %s for a try item starting at code unit start_addr; byte offset is 2*start_addr" % (z[0],),
-               node=f.node, detail="start = %s" % (z[0],))
-    sink.check("end-convention", "try end", Lin.of(z[1]) == sa * 2 + ic * 2 - 1, f, "try end = %s" % (z[1],),
-               "determineException emits end %s; the inclusive last byte of the range is 2*start_addr + 2*insn_count - 1 "
-               "(the convention get_exception's call site uses)" % (z[1],), node=f.node, detail="end = %s (inclusive last byte)" % (z[1],))
+    cases = [("typed handlers only (size 2)", 2, 2), ("catch-all only (size 0)", 0, 0), ("typed handlers and catch-all (size -2)", -2, 2)]
+    for label, size, ntyped in cases:
+        hs = [Handler(7 + k, Lin.atom("handler%d_addr" % k)) for k in range(ntyped)]
+        ch = CatchHandler(104, size, hs, Lin.atom("catch_all_addr"))
+        method = EncMethod(CodeModel([TryItem(sa, ic, 4)], HandlerList([ch])))
+        it = Interp(repo, lenient=LENIENT)
+        try:
+            r = it.call(it.closure_of(f), [VmModel(), method])
+        except PyRaise as e:
+            raise AnalysisError("determineException raised %s on the one-try model" % e)
+        sink.require(isinstance(r, list) and len(r) == 1 and isinstance(r[0], list) and len(r[0]) >= 2,
+                     "determineException no longer returns [[start, end, handlers...]] for one try item (got %r)" % (r,))
+        z = r[0]
+        sink.count("try_items")
+        sink.check("end-convention", "try start, %s" % label, Lin.of(z[0]) == sa * 2, f, "try start = %s" % (z[0],),
+                   "determineException emits start %s for a try item starting at code unit start_addr; byte offset is 2*start_addr" % (z[0],),
+                   node=f.node, detail="start = %s" % (z[0],))
+        sink.check("end-convention", "try end, %s" % label, Lin.of(z[1]) == sa * 2 + ic * 2 - 1, f, "try end = %s" % (z[1],),
+                   "determineException emits end %s; the inclusive last byte of the range is 2*start_addr + 2*insn_count - 1 "
+                   "(the convention get_exception's call site uses)" % (z[1],), node=f.node, detail="end = %s (inclusive last byte)" % (z[1],))
+        want = [("Ltype%d;" % (7 + k), Lin.atom("handler%d_addr" % k) * 2) for k in range(ntyped)]
+        if size <= 0:
+            want.append(("Ljava/lang/Throwable;", Lin.atom("catch_all_addr") * 2))
+        got = []
+        for h in z[2:]:
+            try:
+                got.append((h[0], Lin.of(h[1])))
+            except (TypeError, IndexError, NotModelled):
+                got.append(("?", repr(h)))
+        sink.check("handler-list", label, got == want, f,
+                   "%s: handlers %s" % (label, [(n_, str(a_)) for n_, a_ in got]),
+                   "for an encoded_catch_handler with %s determineException reports the handlers %s; the try range's handlers are %s"
+                   % (label, [(n_, str(a_)) for n_, a_ in got], [(n_, str(a_)) for n_, a_ in want]), node=f.node,
+                   detail="handlers = %s" % [(n_, str(a_)) for n_, a_ in want])
 
 
 # --------------------------------------------------------------------------- driver
@@ -452,6 +571,15 @@ def _mutants(m, d):
                 return True
         return False
     out.append(("determineException: exclusive end", de, end_off_by_one, True))
+
+    def catch_all_only_when_empty(node):
+        for n in ast.walk(node):
+            if isinstance(n, ast.Compare) and len(n.ops) == 1 and isinstance(n.comparators[0], ast.Constant) and n.comparators[0].value == 0 \
+                    and "get_size" in ast.unparse(n.left):
+                n.ops[0] = ast.Eq() if isinstance(n.ops[0], (ast.LtE, ast.GtE)) else ast.LtE()
+                return True
+        return False
+    out.append(("determineException: catch-all only for size == 0", de, catch_all_only_when_empty, True))
 
     # ---- benign --------------------------------------------------------------
     def flip_operands(node):
@@ -552,7 +680,9 @@ def run(ctx):
     ctx.floor("orderings", 26)
     ctx.floor("first_match_cases", 52)
     ctx.floor("call_sites", 1)
-    ctx.floor("try_items", 1)
+    ctx.floor("try_items", 3)
+    ctx.floor("blocks_queried", 3)
+    ctx.floor("blocks_end_to_end", 3)
     ctx.floor("entry_ranges", 1)
     ctx.assume("try ranges and basic blocks are aligned on instruction boundaries, so byte-interval overlap "
                "is equivalent to 'the block contains an instruction covered by the range'")
